@@ -2,6 +2,7 @@ package main
 
 import (
 	"bufio"
+	"io"
 	"crypto/tls"
 	"encoding/json"
 	"fmt"
@@ -34,6 +35,9 @@ type httpIn struct {
 	TLS    bool      `json:"tls"`
 	XFP    string    `json:"xfp,omitempty"`
 	NoGlob bool      `json:"noglob,omitempty"`
+	// the headers by which ServeHTTP chooses the upstream handler (websocket, SSE, plain)
+	Upgrade string `json:"upgrade,omitempty"`
+	Accept  string `json:"accept,omitempty"`
 }
 
 type httpOut struct {
@@ -45,6 +49,7 @@ type httpOut struct {
 	Hosts    []string  `json:"hosts"`
 	Cands    []*tgtOut `json:"cands"`
 	Upstream []bool    `json:"upstream"` // per candidate: is it the instrumented upstream
+	Denied   []bool    `json:"denied"`   // per candidate: verdict of the real AccessDeniedHTTP for this client (oracle; C12's subject)
 }
 
 type fronts struct {
@@ -54,6 +59,82 @@ type fronts struct {
 	tbl        atomic.Value // route.Table
 	noglob     atomic.Value // bool
 	cache      *route.GlobCache
+	conns      [2]*persist // kept-alive client connections (plain, TLS): one socket per listener instead of one per case
+}
+
+// persist is a client connection that is reused for consecutive cases (HTTP/1.1 keep-alive).
+type persist struct {
+	c  net.Conn
+	br *bufio.Reader
+}
+
+func (f *fronts) dial(useTLS bool) (*persist, error) {
+	var c net.Conn
+	var err error
+	if useTLS {
+		c, err = tls.Dial("tcp", f.tls.Listener.Addr().String(), &tls.Config{InsecureSkipVerify: true})
+	} else {
+		c, err = net.Dial("tcp", f.plain.Listener.Addr().String())
+	}
+	if err != nil {
+		return nil, err
+	}
+	return &persist{c: c, br: bufio.NewReader(c)}, nil
+}
+
+// exchange writes the request bytes and reads one response. A connection that was kept from an earlier case and
+// turns out to be dead is replaced once; oneShot requests (protocol upgrades: the connection is hijacked) get a
+// connection of their own. status -1: the server closed the connection without a response (handler panic).
+func (f *fronts) exchange(useTLS bool, msg string, oneShot bool) (status int, loc string, hasLoc bool, err error) {
+	k := 0
+	if useTLS {
+		k = 1
+	}
+	for attempt := 0; attempt < 2; attempt++ {
+		pc := f.conns[k]
+		kept := pc != nil && !oneShot
+		if !kept {
+			if pc, err = f.dial(useTLS); err != nil {
+				return 0, "", false, err
+			}
+			if !oneShot {
+				f.conns[k] = pc
+			}
+		}
+		drop := func() {
+			pc.c.Close()
+			if f.conns[k] == pc {
+				f.conns[k] = nil
+			}
+		}
+		pc.c.SetDeadline(time.Now().Add(10 * time.Second))
+		if _, werr := pc.c.Write([]byte(msg)); werr != nil {
+			drop()
+			if kept {
+				continue
+			}
+			return -1, "", false, nil
+		}
+		resp, rerr := http.ReadResponse(pc.br, nil)
+		if rerr != nil {
+			drop()
+			if kept && pc.br.Buffered() == 0 {
+				continue // a kept connection the server had closed meanwhile: not an answer to this request
+			}
+			return -1, "", false, nil
+		}
+		status = resp.StatusCode
+		if l, ok := resp.Header["Location"]; ok && len(l) > 0 {
+			loc, hasLoc = l[0], true
+		}
+		_, cerr := io.Copy(io.Discard, resp.Body)
+		resp.Body.Close()
+		if oneShot || resp.Close || cerr != nil {
+			drop()
+		}
+		return status, loc, hasLoc, nil
+	}
+	return -1, "", false, nil
 }
 
 var (
@@ -109,49 +190,36 @@ func runHTTP(in httpIn) (interface{}, error) {
 	if err != nil {
 		return httpOut{Err: "route"}, nil
 	}
-	if strings.ContainsAny(in.Target, " \r\n\x00") || strings.ContainsAny(in.Host, " \r\n\x00") || strings.ContainsAny(in.XFP, "\r\n\x00") {
+	if strings.ContainsAny(in.Target, " \r\n\x00") || strings.ContainsAny(in.Host, " \r\n\x00") || strings.ContainsAny(in.XFP+in.Upgrade+in.Accept, "\r\n\x00") {
 		return httpOut{Err: "request"}, nil
 	}
 	f.tbl.Store(tbl)
 	f.noglob.Store(in.NoGlob)
 	atomic.StoreInt64(&f.hits, 0)
 
-	addr := f.plain.Listener.Addr().String()
-	var conn net.Conn
-	if in.TLS {
-		conn, err = tls.Dial("tcp", f.tls.Listener.Addr().String(), &tls.Config{InsecureSkipVerify: true})
-	} else {
-		conn, err = net.Dial("tcp", addr)
-	}
-	if err != nil {
-		return nil, err
-	}
-	defer conn.Close()
-	conn.SetDeadline(time.Now().Add(10 * time.Second))
 	var b strings.Builder
 	fmt.Fprintf(&b, "GET %s HTTP/1.1\r\nHost: %s\r\n", in.Target, in.Host)
 	if in.XFP != "" {
 		fmt.Fprintf(&b, "X-Forwarded-Proto: %s\r\n", in.XFP)
 	}
-	b.WriteString("Connection: close\r\n\r\n")
-	if _, err := conn.Write([]byte(b.String())); err != nil {
-		return nil, err
+	if in.Accept != "" {
+		fmt.Fprintf(&b, "Accept: %s\r\n", in.Accept)
 	}
-	resp, err := http.ReadResponse(bufio.NewReader(conn), nil)
-	out := httpOut{Status: -1} // -1: the server closed the connection without a response (handler panic)
-	if err == nil {
-		resp.Body.Close()
-		out.Status = resp.StatusCode
-		if l, ok := resp.Header["Location"]; ok && len(l) > 0 {
-			out.Location, out.HasLoc = l[0], true
-		}
+	if in.Upgrade != "" {
+		fmt.Fprintf(&b, "Upgrade: %s\r\nConnection: Upgrade\r\n", in.Upgrade)
+	}
+	b.WriteString("\r\n")
+	out := httpOut{}
+	out.Status, out.Location, out.HasLoc, err = f.exchange(in.TLS, b.String(), in.Upgrade != "")
+	if err != nil {
+		return nil, err
 	}
 	out.Hits = atomic.LoadInt64(&f.hits)
 	// what Lookup had to choose from (same functions, same request shape)
 	if out.Status != 400 {
 		u, err := url.ParseRequestURI(in.Target)
 		if err == nil {
-			req := &http.Request{Method: "GET", URL: u, Host: in.Host, Header: http.Header{}}
+			req := &http.Request{Method: "GET", URL: u, Host: in.Host, Header: http.Header{}, RemoteAddr: "127.0.0.1:1"}
 			if in.TLS {
 				req.TLS = &tls.ConnectionState{}
 			}
@@ -160,6 +228,7 @@ func runHTTP(in httpIn) (interface{}, error) {
 			for _, c := range cands {
 				out.Cands = append(out.Cands, dumpTarget(c))
 				out.Upstream = append(out.Upstream, c != nil && c.URL.String() == f.upstream.URL+"/")
+				out.Denied = append(out.Denied, c != nil && c.AccessDeniedHTTP(req))
 			}
 		}
 	}
@@ -179,6 +248,15 @@ func genHTTP(r *hx.Rand) httpIn {
 	in := httpIn{Host: r.Pick(httpReqHosts), TLS: r.Chance(1, 2), NoGlob: r.Chance(1, 6)}
 	if r.Chance(1, 2) {
 		in.XFP = r.Pick([]string{"https", "http", "https", "HTTPS", "ws"})
+	}
+	// the headers ServeHTTP reads after the redirect branch to pick the upstream handler
+	switch r.Intn(8) {
+	case 0:
+		in.Upgrade = r.Pick([]string{"websocket", "WebSocket", "WEBSOCKET", "h2c", "websocket2"})
+	case 1:
+		in.Accept = r.Pick([]string{"text/event-stream", "text/event-stream", "text/html", "Text/Event-Stream"})
+	case 2:
+		in.Upgrade, in.Accept = "websocket", "text/event-stream"
 	}
 	hostOnly := strings.Split(in.Host, ":")[0]
 	path := genReqPath(r, "")
@@ -208,6 +286,9 @@ func genHTTP(r *hx.Rand) httpIn {
 			ri.Prepend = genPrepend(r)
 			ri.Redirect = genCode(r)
 		}
+		if r.Chance(1, 8) {
+			genAccess(r, &ri.tgtIn)
+		}
 		in.Routes = append(in.Routes, ri)
 	}
 	return in
@@ -231,6 +312,14 @@ func init() {
 			selfHTTP(false, ""), selfHTTP(true, ""), selfHTTP(true, "http"),
 			httpIn{Routes: []routeIn{{"*:80", tgtIn{Tmpl: "https://$host$path", Redirect: "301"}}}, Host: "c.com:80", Target: "/a%2Fb?q=1"},
 			httpIn{Routes: []routeIn{{"/", tgtIn{Tmpl: "https://$host/$path", Redirect: "302"}}}, Host: "c.com", Target: "/x", XFP: "https"},
+			// requests that would select the websocket / SSE handler, sent to a redirect route
+			httpIn{Routes: []routeIn{{"/", tgtIn{Tmpl: "https://$host$path", Redirect: "301"}}}, Host: "c.com", Target: "/ws", Upgrade: "websocket"},
+			httpIn{Routes: []routeIn{{"/", tgtIn{Tmpl: "https://$host$path", Redirect: "301"}}}, Host: "c.com", Target: "/events", Accept: "text/event-stream"},
+			httpIn{Routes: []routeIn{{"/", tgtIn{Tmpl: "UPSTREAM"}}}, Host: "c.com", Target: "/ws", Upgrade: "websocket"},
+			httpIn{Routes: []routeIn{{"/", tgtIn{Tmpl: "UPSTREAM"}}}, Host: "c.com", Target: "/events", Accept: "text/event-stream"},
+			// the access gate stands in front of the redirect branch
+			httpIn{Routes: []routeIn{{"/", tgtIn{Tmpl: "https://$host$path", Redirect: "301", Deny: "ip:127.0.0.1"}}}, Host: "c.com", Target: "/x"},
+			httpIn{Routes: []routeIn{{"/", tgtIn{Tmpl: "https://$host$path", Redirect: "301", Allow: "ip:127.0.0.0/8"}}}, Host: "c.com", Target: "/x"},
 		},
 		Gen: func(r *hx.Rand, i int) interface{} { return genHTTP(r) },
 		Run: func(raw json.RawMessage) (interface{}, error) {
